@@ -20,8 +20,8 @@ import os
 import sys
 
 
-def serve(names):
-    """names: key -> output file name.  Never returns."""
+def serve(names, binary=False):
+    """names: key -> output file name.  Never returns.  binary: files[key] is hex, written as bytes."""
     with open("fake_plan.json") as fh:
         plan = json.load(fh)
     for fn, text in plan.get("pre", {}).items():
@@ -43,12 +43,14 @@ def serve(names):
         if t[0] == "C":
             for k, fn in names.items():
                 if k not in out:
-                    out[k] = open(fn, "w")
+                    out[k] = open(fn, "wb" if binary else "w")
         elif t[0] == "B":
             k, n = t[1], int(t[2])
             if k not in out:
-                out[k] = open(names[k], "w")
+                out[k] = open(names[k], "wb" if binary else "w")
             text = plan["files"][k]
+            if binary and not isinstance(text, bytes):
+                text = plan["files"][k] = bytes.fromhex(text)
             if n > written[k]:
                 out[k].write(text[written[k]:n])
                 out[k].flush()
